@@ -154,8 +154,56 @@ def exec_dependency_walk(ctx):
     ctx.check("dependency walk: PureExec operands transitively (outer first), below nested effects and hybrids at every depth, starting from effect_ops", got == [exp], str(exp), str(got), fn_where(idx, fg))
 
 
+def effect_operand_lists(ctx):
+    """every operand an effect is built from is in its effect_ops: that list is what the statement layout walks to find the
+    operations it has to declare in front of the effect (and what chk_hybrid_dep walks to find pending effects) - an operand
+    missing from it is used undeclared"""
+    from .c02 import lab
+    from .common import mk_pure, mk_vt
+
+    idx = get_index(ctx.env)
+    E = lambda l: mk_pure(l, cls="Effect")
+    P = lambda l, cls="Pure": mk_pure(l, mk_vt("t" + l, True, 32), cls=cls)
+    at = {m: EnumV("AssignmentType", m, v) for m, v in idx.enum_table("AssignmentType").items()}
+    ht = {m: EnumV("HybridType", m, v) for m, v in idx.enum_table("HybridType").items()}
+    pt = idx.enum_table("PureType")
+
+    def local(l):
+        o = P(l, cls="LocalVar")
+        o.fields["type"] = EnumV("PureType", "LOCAL", pt["LOCAL"])
+        return o
+    specs = {
+        "Assignment": (lambda: ["n", at["ASSIGN"], local("dest"), P("src")], ["dest", "src"]),
+        "Branch": (lambda: ["n", P("cond"), E("then"), E("otherwise")], ["cond", "then", "otherwise"]),
+        "ForLoop": (lambda: ["n", P("control"), E("compound")], ["control", "compound"]),
+        "Jump": (lambda: ["n", P("target")], ["target"]),
+        "MemStore": (lambda: ["n", P("va"), P("data")], ["va", "data"]),
+        "PostfixIncDec": (lambda: ["n", local("operand"), mk_vt("t", True, 32), ht["INC"]], ["operand"]),
+        "Sequence": (lambda: ["n", [E("e0"), E("e1")]], ["e0", "e1"]),
+        "GCCStmtDeclExpr": (lambda: ["n", E("stmt"), P("expr"), mk_vt("t", True, 32)], ["stmt", "expr"]),
+    }
+    known = set(specs) | {"Empty", "NOP", "Hybrid", "Call", "SubRoutine", "SubRoutineCall", "Effect"}
+    classes = {c for c in (set(idx.subclasses("Effect", strict=True)) | set(idx.subclasses("Hybrid"))) if c in idx.classes}
+    ctx.check("effect classes covered by the operand-list table", classes <= known, "no effect class outside the table", str(sorted(classes - known)), "rzilcompiler/Transformer/Effects/")
+    for c, (mk, exp) in sorted(specs.items()):
+        fi = idx.resolve_method(c, "__init__")
+        ctx.need(fi is not None, f"{c}.__init__ not found")
+
+        def once(i, c=c, mk=mk):
+            o = AObj(c, {}, label="node")
+            i.call_function(fi, mk(), self_obj=o)
+            return o
+        outs = Interp(idx).explore(once)
+        got = []
+        for o in outs:
+            eo = o.value.fields.get("effect_ops") if o.kind == "return" and isinstance(o.value, AObj) else None
+            got.append(sorted(lab(x) for x in eo) if isinstance(eo, list) else str(o.value)[:40])
+        ctx.check(f"{c}: effect_ops holds every operand", got == [sorted(exp)], str(sorted(exp)), str(got), fn_where(idx, fi))
+
+
 @rule("R16.3", "C16", "what the statement layout walks (effect_ops) stays in step with the operands: src/dest are re-bound only through the setters; every created node is registered", min_instances=10)
 def r16_3(ctx):
+    effect_operand_lists(ctx)
     idx = get_index(ctx.env)
     # who stores to .src / .dest / .stmt of effects
     for attr, setter, cls in (("src", "set_src", "Assignment"), ("dest", "set_dest", "Assignment"), ("stmt", "update_stmt", "GCCStmtDeclExpr")):
